@@ -595,7 +595,8 @@ func c02KDF(c *Ctx) {
 						conds[k] = v
 					}
 				}
-				truncOK = conds["eq(add(0x1,i),"+bound+")=true"] && conds["ne(rem(length,0x20),0x0)=true"]
+				last := conds["eq(add(0x1,i),"+bound+")=true"] || conds["eq(i,sub("+bound+",0x1))=true"] || conds["eq(i,add(0xffffffffffffffff,"+bound+"))=true"] // i+1 == blocks, i == blocks-1
+				truncOK = last && conds["ne(rem(length,0x20),0x0)=true"]
 				if !truncOK {
 					dbg("trunc conds: %v", conds)
 				}
